@@ -62,6 +62,9 @@ impl Drop for Handler {
 		// jobs created by an action that never made it back to the worker (the action was cancelled
 		// because Watchexec is shutting down, e.g. on a critical error) must not be left running
 		// detached: dropping a JoinHandle does not stop its task
+		// verification seam: in creation order instead of hash order
+		#[cfg(watchexec_verif)]
+		crate::verif::drop_handler_in_order(&mut self.new, &mut self.extant);
 		for (_, (_, task)) in self.new.drain() {
 			task.abort();
 		}
